@@ -203,6 +203,60 @@ def rangeMut (c : Case) (t : Nat) (del ins : List Nat) (w : Int) : String × Cas
     if b.nanVisits < nanInit || b.nanVisits > nanInit + nanIns then viol := viol + 1
     return (s!"R {need} {once} {viol}", { c with ms := ⟨some l.jm, l.st⟩ })
 
+def parseForm (f : String) : Option RangeForm :=
+  if f == "kv" then some .keyValue
+  else if f == "k" then some .keyOnly
+  else if f == "v" then some .valueOnly
+  else if f == "bk" || f == "bb" || f == "none" then some .unbound
+  else none
+
+/-- what `rngc_<form>(del, ins, w)` of the generated program prints: a range of the given binding form whose body
+    deletes `del` and inserts `ins` in its first run and counts its runs -/
+def rangeCount (c : Case) (form : RangeForm) (del ins : List Nat) (w : Int) : String × Case := Id.run do
+  let n := c.univ.size
+  let mut ms := c.ms
+  let rep : Array Int := c.univ.map (findIdx c.univ)
+  let n0 := match ms.m with | some jm => jm.size | none => 0
+  let mut mark : Array Bool := Array.replicate n false
+  let mut nd := 0
+  for d in del do
+    let r := rep[d]!
+    if r ≥ 0 && !mark[r.toNat]! then
+      mark := mark.set! r.toNat true
+      let q := step halfFs ms (.commaOk c.univ[r.toNat]!)
+      ms := q.1
+      match q.2 with
+      | .valOk _ true => nd := nd + 1
+      | _ => pure ()
+  let mut mark2 : Array Bool := Array.replicate n false
+  let mut ni := 0
+  for i in ins do
+    let r := rep[i]!
+    if r < 0 then ni := ni + 1
+    else if !mark2[r.toNat]! then
+      mark2 := mark2.set! r.toNat true
+      let q := step halfFs ms (.commaOk c.univ[r.toNat]!)
+      ms := q.1
+      match q.2 with
+      | .valOk _ true => pure ()
+      | _ => ni := ni + 1
+  let univ := c.univ
+  let body : FBody Nat := fun _ _ cnt =>
+    if cnt == 0 then
+      (del.map (fun d => Mut.delete univ[d]!) ++ ins.map (fun i => Mut.store univ[i]! w), cnt + 1)
+    else ([], cnt + 1)
+  let (cnt, ms') := match ms.m with
+    | none => (0, ms)
+    | some jm =>
+      let l := rangeForm halfFs form body jm ms.st 0
+      (l.user, (⟨some l.jm, l.st⟩ : MSt))
+  let rem := n0 - nd
+  let lo := if n0 == 0 then 0 else max rem 1
+  let hi := if n0 == 0 then 0 else rem + (if nd ≥ 1 then 1 else 0) + ni
+  let ok := if lo ≤ cnt && cnt ≤ hi then "1" else "0"
+  let ex := if lo == hi then toString cnt else "-"
+  return (s!"C {lo} {hi} {ok} {ex}", { c with ms := ms' })
+
 def parsePairs (s : String) : Option (List (Nat × Int)) :=
   if s == "-" then some [] else
   (s.splitOn ",").mapM fun p => match p.splitOn "=" with
@@ -255,6 +309,13 @@ def gomapOp (c : Case) : List String → String × Case
       let d := digest { c with ms := r.1 }
       (s!"L {d.1}", d.2)
     | none => ("bad-op", c)
+  | ["rngc", form, del, ins, w] =>
+    match parseForm form, parseNatList del, parseNatList ins, w.toInt? with
+    | some form, some del, some ins, some w =>
+      let r := rangeCount c form del ins w
+      let d := digest r.2
+      (s!"{r.1} {d.1}", d.2)
+    | _, _, _, _ => ("bad-op", c)
   | ["rng", t, del, ins, w] =>
     match t.toNat?, parseNatList del, parseNatList ins, w.toInt? with
     | some t, some del, some ins, some w =>
